@@ -29,12 +29,13 @@ FIXED_MESSAGES = {
     "NoSource": "raised by exec'd code", "LibraryTagged": "bad </info> msg", "LibraryBackslash": "C:\\dir\\",
     "TagCloseOpen": "</info> x <error>", "LibraryCloseOpen": "</info> x <error>",
     "CodeMethod": "code is a method", "CodeNone": "code is None", "CodeString": "code is a string", "CodeFloat": "code is a float",
-    "CodeBig": "code is 70000",
+    "CodeBig": "code is 70000", "TagFile": "raised by code whose file name is a closing tag",
 }
 FREE_MESSAGE = ("Foreign", "Library", "WithCode", "Chained", "NoSource", "CodeMethod", "CodeNone", "CodeString", "CodeFloat", "CodeBig")
 ALL_KINDS = ["Foreign", "Library", "KeyboardInterrupt", "WithCode", "Chained", "TagOpen", "TagClose", "TagUnbalanced", "TagCloseOpen",
              "MultiLine", "NonAscii", "Backslash", "NoSource", "StrFails", "LibraryTagged", "LibraryBackslash", "LibraryCloseOpen",
-             "CodeMethod", "CodeNone", "CodeString", "CodeFloat", "CodeBig"]
+             "CodeMethod", "CodeNone", "CodeString", "CodeFloat", "CodeBig", "TagFile"]
+SCOPES = ["top", "indent", "increment", "output"]
 
 
 # the code that raises lives in a small generated file of its own: the report highlights the whole source file of the
@@ -72,6 +73,8 @@ class StrFailsError(Exception):
 
 _ns = {}
 exec("def boom(msg):\\n    raise ValueError(msg)\\n", _ns)
+_tf = {}
+exec(compile("def boom(msg):\\n    raise ValueError(msg)\\n", "</error>", "exec"), _tf)
 
 
 def raise_kind(kind, msg):
@@ -92,6 +95,8 @@ def raise_kind(kind, msg):
             raise RuntimeError(msg) from cause
     if kind == "NoSource":
         _ns["boom"](msg)
+    if kind == "TagFile":
+        _tf["boom"](msg)
     raise RuntimeError(msg)
 '''
 _RAISER = {}
@@ -132,8 +137,8 @@ def message_of(kind, override):
 class Recorder(object):
     """handler of every command: records the invocation, then does what the environment says"""
 
-    def __init__(self, calls, outcome, msg):
-        self.calls, self.outcome, self.msg = calls, outcome, msg
+    def __init__(self, calls, outcome, msg, scope="top"):
+        self.calls, self.outcome, self.msg, self.scope = calls, outcome, msg, scope
 
     def handle(self, args, io, command):
         opts = args.options()
@@ -142,6 +147,18 @@ class Recorder(object):
             "args": [[k, str(v)] for k, v in sorted(args.arguments().items())],
             "opts": [[k, str(opts[k])] for k in ("flag", "num") if k in opts],
         })
+        if self.scope == "indent":
+            with io.indent(2):
+                return self._finish()
+        if self.scope == "increment":
+            with io.increment_indent(2):
+                return self._finish()
+        if self.scope == "output":
+            with io.output.indent(2):
+                return self._finish()
+        return self._finish()
+
+    def _finish(self):
         if self.outcome["t"] == "raise":
             raise_kind(self.outcome["k"], self.msg)
         return VALUES[self.outcome["v"]]
@@ -179,7 +196,7 @@ def build_app(env, msgs, calls, formatter=None):
         cfg = DefaultApplicationConfig("app", "1.0")
     cfg.set_catch_exceptions(env["catch"])
     cfg.set_terminate_after_run(False)
-    handler = Recorder(calls, env["outcome"], msgs.get("handler"))
+    handler = Recorder(calls, env["outcome"], msgs.get("handler"), env.get("scope", "top"))
     with cfg.command("alpha") as c:
         c.add_argument("a", Argument.REQUIRED)
         c.add_option("flag", None, Option.NO_VALUE)
@@ -240,6 +257,7 @@ def run_case(case, formatter=None):
     from clikit.io.output_stream import BufferedOutputStream
 
     env = case["env"]
+    env.setdefault("scope", "top")
     msgs = case_messages(env, case.get("msgs"))
     calls = []
     app = build_app(env, msgs, calls, formatter)
@@ -298,7 +316,8 @@ def random_env(rng):
     else:
         outcome = {"t": "raise", "v": "", "k": rng.choice(kinds)}
     env = {"app": app, "catch": rng.random() < 0.85, "verb": rng.choice([0, 0, 1, 2, 3]), "line": line,
-           "pre": rng.choice(["none", "none", "pass", "raise"]), "listeners": listeners, "outcome": outcome}
+           "pre": rng.choice(["none", "none", "pass", "raise"]), "listeners": listeners, "outcome": outcome,
+           "scope": rng.choice(SCOPES)}
     msgs = {src: rng.choice(MESSAGES) for src in ("pre", "l1", "l2", "l3", "handler") if rng.random() < 0.8}
     return {"env": env, "msgs": msgs}
 
@@ -341,7 +360,7 @@ def _run(ctx):
         "Report, Return) for every environment of the product {plain, default application} x catching on/off x 4 verbosities x "
         "7 command lines (two commands, a sub-command, options, a missing argument, an unknown command) x pre-resolve listener "
         "{none, passes, raises} x up to 1/2 pre-handle listeners {pass, handle with 0 / '3' / 300, raise Foreign / tagged "
-        "library error / KeyboardInterrupt} x 18 handler results + 22 exception kinds (6 of them carrying a `code` that is an int / a method / None / a string / a float / 70000), checking Contained, ZeroIff, Clamped, "
+        "library error / KeyboardInterrupt} x {at the top of the handler, inside io.indent / io.increment_indent / io.output.indent scopes} x 18 handler results + 23 exception kinds (6 of them carrying a `code` that is an int / a method / None / a string / a float / 70000), checking Contained, ZeroIff, Clamped, "
         "Reported, Interrupt, CallsOK on every final state and termination under fairness; three sub-products (all outcomes x "
         "verbosities; all listener pairs; all lines x pre-resolve) are emitted and replayed on real applications (status, "
         "escaping exception, handler invocations with command name / arguments / options, whether anything was printed); "
